@@ -210,6 +210,10 @@ class Ctx:
         self.engines: dict = {}
         for name, kind in world.engines:
             self.engines[name] = iteration.Engine(name=name) if kind == "it" else sql.Engine(name=name)
+        for name, kind in world.engines:
+            if kind == "it" and name in A.EFN_FACTORS:
+                # a named function with an engine-specific meaning (alphabet node "efn")
+                self.engines[name].functions[A.EFN_NAME] = A.efn_impl(name)
         self.leaves: dict = {}
         self.leaf_payloads: dict = {}
         for s in world.leaves:
